@@ -1,4 +1,5 @@
 import Nsq.Proofs.RegistryQuery
+import Nsq.Proofs.RegistryProto
 import Nsq.Tie.Registry
 /-!
 # C14 — nsqlookupd answers reflect exactly the live registrations
@@ -133,6 +134,52 @@ theorem disconnect_immediate (c : Conf) (r : Registry) (h : WF r) (p : Nat) (now
     obtain ⟨n, hn, hp⟩ := hm
     subst hp
     exact hnl ((mem_qNodes c _ now hw n).mp hn).1.1
+
+/-- … and EVERY way a connection can end runs that clean-up: for every byte stream the peer sent,
+every registry, every JSON decoder and every pattern `wf` of answers the peer still read before
+it went away (read error / EOF, a fatal error whose answer could or could not be written, the
+failed write of the answer of a SUCCESSFUL command), the peer is afterwards in no producer list,
+not in `/nodes`, and has no entry under any key. (`fin = panic` does not occur: C15.) -/
+theorem disconnect_every_exit (c : Conf) (v : Nsq.Model.RegistryProto.Variant)
+    (decode : List UInt8 → Option Info) (wf : Nat → Bool) (r : Registry) (h : WF r) (p : Nat) (now : Int)
+    (inp : List UInt8) (now' : Int)
+    (hfin : (Nsq.Model.RegistryProto.handleW v decode wf r p now inp).fin = .eof ∨
+            (Nsq.Model.RegistryProto.handleW v decode wf r p now inp).fin = .fatal ∨
+            (Nsq.Model.RegistryProto.handleW v decode wf r p now inp).fin = .writeFail) :
+    let r' := (Nsq.Model.RegistryProto.handleW v decode wf r p now inp).reg
+    (∀ t a, qLookup c r' t now' = some a → p ∉ a.producers.map (·.1)) ∧
+    p ∉ (qNodes c r' now').map (·.id) ∧ (∀ k, getP r'.db k p = none) ∧ identifiedB r' p = false := by
+  intro r'
+  have key : Nsq.Proofs.RegistryProto.Gone p r' ∧ WF r' :=
+    Nsq.Proofs.RegistryProto.handleW_exit_gone v decode wf r p now inp h hfin
+  obtain ⟨⟨hid, hnone⟩, hw⟩ := key
+  have hnl : ¬ (abs r').live p := by
+    intro hl
+    simp only [abs, hnone] at hl
+    simp at hl
+  refine ⟨?_, ?_, hnone, hid⟩
+  · intro t a ha hm
+    simp only [List.mem_map] at hm
+    obtain ⟨e, he, hp⟩ := hm
+    cases e with
+    | mk q i =>
+      simp only at hp; subst hp
+      exact hnl ((mem_lookup_producers c _ t now' a hw ha q i).mp he).1.2.1
+  · intro hm
+    simp only [List.mem_map] at hm
+    obtain ⟨n, hn, hp⟩ := hm
+    subst hp
+    exact hnl ((mem_qNodes c _ now' hw n).mp hn).1.1
+
+/-- non-vacuity: the peer identifies, registers, sends a second REGISTER and goes away without
+reading its answer (`wf` fails at reply 2): the command is executed, then everything is removed -/
+example :
+    let res := Nsq.Model.RegistryProto.handleW Nsq.Model.RegistryProto.fixedV
+      (fun _ => some ⟨[104], [110], [118], 1, 2⟩) (fun n => n < 2) init 7 0
+      (Nsq.Model.RegistryProto.magicV1 ++ Nsq.Model.RegistryProto.cmdIDENTIFY ++ [10, 0, 0, 0, 1, 123] ++
+        Nsq.Model.RegistryProto.cmdREGISTER ++ [32, 116, 10] ++ Nsq.Model.RegistryProto.cmdREGISTER ++ [32, 117, 10])
+    res.fin = .writeFail ∧ res.replies.length = 2 ∧ qTopics res.reg = [[116], [117]] ∧
+      (qLookup ⟨10, 10⟩ res.reg [117] 0).map (fun a => a.producers.length) = some 0 := by decide
 
 /-- A tombstone hides only the named producer for the named topic: other topics, and nodes with
 another address, keep their answers; `/nodes` never loses a node to a tombstone. -/
